@@ -348,6 +348,7 @@ func (mab *memoryAddrBook) ConsumePeerRecord(recordEnvelope *record.Envelope, tt
 
 	mab.mu.Lock()
 	defer mab.mu.Unlock()
+	mab.dropExpiredUnlocked(rec.PeerID)
 
 	// ensure seq is greater than or equal to the last received
 	lastState, found := mab.signedPeerRecords[rec.PeerID]
@@ -411,6 +412,18 @@ func prevSignedAddrs(s *peerRecordState) []ma.Multiaddr {
 	return pr.Addrs
 }
 
+// dropExpiredUnlocked removes p's expired entries that gc has not collected yet,
+// so that mutators never match (and thereby revive or extend) them.
+func (mab *memoryAddrBook) dropExpiredUnlocked(p peer.ID) {
+	now := mab.clock.Now()
+	for _, a := range mab.addrs.Addrs[p] {
+		if a.ExpiredBy(now) {
+			mab.addrs.Delete(a)
+		}
+	}
+	mab.maybeDeleteSignedPeerRecordUnlocked(p)
+}
+
 func (mab *memoryAddrBook) maybeDeleteSignedPeerRecordUnlocked(p peer.ID) {
 	if len(mab.addrs.Addrs[p]) == 0 {
 		delete(mab.signedPeerRecords, p)
@@ -458,6 +471,7 @@ func (mab *memoryAddrBook) addAddrs(p peer.ID, addrs []ma.Multiaddr, ttl time.Du
 	mab.mu.Lock()
 	defer mab.mu.Unlock()
 
+	mab.dropExpiredUnlocked(p)
 	mab.addAddrsUnlocked(p, addrs, ttl)
 }
 
@@ -530,6 +544,7 @@ func (mab *memoryAddrBook) SetAddrs(p peer.ID, addrs []ma.Multiaddr, ttl time.Du
 	mab.mu.Lock()
 	defer mab.mu.Unlock()
 
+	mab.dropExpiredUnlocked(p)
 	defer mab.maybeDeleteSignedPeerRecordUnlocked(p)
 
 	exp := mab.clock.Now().Add(ttl)
@@ -584,6 +599,7 @@ func (mab *memoryAddrBook) UpdateAddrs(p peer.ID, oldTTL time.Duration, newTTL t
 	mab.mu.Lock()
 	defer mab.mu.Unlock()
 
+	mab.dropExpiredUnlocked(p)
 	defer mab.maybeDeleteSignedPeerRecordUnlocked(p)
 
 	exp := mab.clock.Now().Add(newTTL)
